@@ -54,6 +54,15 @@ def run(ctx):
     #    ONLY way the shared tree changes an old version's answers
     real = ctx.tlc("MC_ZoneStore", "MC_ZoneStore_c09_real", workers=8, label="mc-real", timeout=3000)
     ctx.require_ok(real, "MC_ZoneStore_c09_real")
+    # 2b. liveness (model only): under weak fairness of the holder's steps and a fair
+    #     lock, a granted lock is eventually released and a waiting writer gets it;
+    #     without fairness the first property fails (non-vacuity)
+    live = ctx.tlc("MC_ZoneStore", "MC_ZoneStore_live", workers=4, label="mc-live", coverage=False, timeout=900)
+    ctx.require_ok(live, "MC_ZoneStore_live")
+    nf = ctx.tlc("MC_ZoneStore", "MC_ZoneStore_live_nofair", workers=4, label="mc-live-nofair", coverage=False,
+                 count=False, timeout=900)
+    if "Temporal property LockEventuallyReleased was violated" not in open(nf.log).read():
+        raise vlib.ToolError("liveness property holds without fairness: vacuous")
     # 3. the known finding is a genuine counterexample of SnapshotIsolation
     if DEV in ctx.open_devs:
         r = ctx.tlc("MC_ZoneStore", "MC_ZoneStore_devsim9", workers=4, label="dev-" + DEV,
